@@ -1,4 +1,4 @@
 From Coq Require Extraction ExtrOcamlBasic.
-From Centro Require Import Base.Sx Model.Hull Spec.HullSpec.
+From Centro Require Import Base.Sx Model.Hull Model.HullW Spec.HullSpec.
 Extraction Language OCaml.
-Extraction "extracted/c02.ml" entry_hull_ijv entry_hull_labels entry_hull_label entry_hull_ok entry_batch_ok.
+Extraction "extracted/c02.ml" entry_hull_ijv entry_hull_ijv_w entry_hull_labels entry_hull_label entry_hull_ok entry_batch_ok.
